@@ -642,7 +642,6 @@ func ruleTabDegree(c *Ctx) {
 	}
 
 	// when the size function folds for every (number, quality) the algorithm needs no shape analysis: decide it by value
-	c.checkNoHiddenState()
 	if done := c.degreeSizesByFolding(); done {
 		c.checkCoerceTables()
 		return
